@@ -1731,6 +1731,359 @@ val as_optz0 : val0 -> z option
 
 val dispatch_edit : z -> val0 -> val0 option
 
+val c_sq : z
+
+val c_bs : z
+
+val c_sp : z
+
+val c_nl : z
+
+val is_meta : z -> bool
+
+type mode =
+| Out
+| InWord
+| InSQ
+| Esc
+
+type lst = { l_mode : mode; l_cur : str; l_acc : str list }
+
+val step0 : lst -> z -> lst option
+
+val run1 : lst -> str -> lst option
+
+val finish : lst -> str list option
+
+val l_init : lst
+
+val sh_words : str -> str list option
+
+type seg =
+| SLit of str
+| SWords of str list
+
+val feed_word : lst -> str -> lst option
+
+val feed_words : lst -> str list -> lst option
+
+val feed_segs : lst -> seg list -> lst option
+
+val template_words : seg list -> str list option
+
+val join_sp : str list -> str
+
+type fmode =
+| FOut
+| FWord
+| FSQ
+| FSQEsc
+
+type fst_ = { fl_mode : fmode; fl_cur : str; fl_acc : str list }
+
+val fstep : fst_ -> z -> fst_ option
+
+val frun : fst_ -> str -> fst_ option
+
+val fish_words : str -> str list option
+
+val c_slash : z
+
+val is_blank0 : z -> bool
+
+val take_word : str -> str
+
+val first_word : str -> str
+
+val s_sh : str
+
+val s_fish : str
+
+val running_shell : str -> str -> str
+
+val base_name_go : str -> str -> str
+
+val base_name : str -> str
+
+val runs_fish : str -> str -> bool
+
+val shell_reads : str -> str -> str -> str list option
+
+val c_eq : z
+
+val entry_name : str -> str
+
+val entry_value : str -> str option
+
+val name_start : z -> bool
+
+val name_char : z -> bool
+
+val shell_name : str -> bool
+
+val s_tmux_pane : str
+
+val exportable : str -> bool
+
+val w_export : str
+
+val export_effect : str -> str list option
+
+val esc_sh : str -> str
+
+val esc_fish : str -> str
+
+val quote_entry : bool -> str -> str
+
+val escape_single_quote : str -> str
+
+val tmux_suffix : str
+
+val tmux_args_go : str -> str list -> str
+
+val tmux_arg_str : str -> str list -> str
+
+val export_word : str
+
+val export_line : str -> str -> str
+
+val strip_prefix : str -> str -> str option
+
+val has_prefix1 : str -> str -> bool
+
+val has_suffix1 : str -> str -> bool
+
+val trim_suffix : str -> str -> str
+
+val span : (z -> bool) -> str -> nat * str
+
+val join_str : str -> str list -> str
+
+val mid : nat -> str -> str res
+
+val c_lb : z
+
+val c_rb : z
+
+val in_flags : z -> bool
+
+val in_range : z -> bool
+
+val closes : str -> bool
+
+val m_a1 : str -> nat option
+
+val m_a2 : str -> nat option
+
+val s_fzf_query : str
+
+val s_fzf_action : str
+
+val s_fzf_prompt : str
+
+val m_a3 : str -> nat option
+
+val opt_char : z -> str -> nat * str
+
+val m_a4 : str -> nat option
+
+val match_at0 : str -> nat option
+
+type piece =
+| PLit of str
+| PEsc of str
+| PPh of str
+
+val flush_lit : str -> piece list -> piece list
+
+val scan : str -> nat -> str -> piece list
+
+type flags = { f_plus : bool; f_space : bool; f_number : bool; f_file : 
+               bool; f_raw : bool }
+
+val no_flags : flags
+
+val pp_go : str -> flags -> str -> flags * str
+
+val s_fzf_colon : str
+
+val parse_placeholder : str -> (flags * str) res
+
+val is_digit1 : z -> bool
+
+val digits_val : z -> str -> z option
+
+val int_min : z
+
+val int_max : z
+
+val atoi : str -> z option
+
+val itoa_pos : nat -> z -> str -> str
+
+val bits : z -> nat
+
+val itoa : z -> str
+
+val s_dd : str
+
+val split_dd : str -> str -> str list
+
+type rng0 = z * z
+
+val new_range : z -> z -> rng0
+
+val atoi_nz : str -> z option
+
+val parse_range : str -> rng0 option
+
+val split_comma : str -> str -> str list
+
+val parse_ranges : str list -> rng0 list option
+
+val split_nth : str -> rng0 list option
+
+type awk_state =
+| AwkNil
+| AwkBlack
+| AwkWhite
+
+val awk_white : z -> bool
+
+val awk_go : str -> awk_state -> str -> str list -> str list
+
+val awk_tokens : str -> str list
+
+val split_after : nat -> str -> str -> str -> str list res
+
+val tokenize : str option -> str -> str list res
+
+val sel_go : str list -> z -> z -> z -> str
+
+val sel : str list -> z -> z -> str
+
+val transform1 : str list -> rng0 -> str
+
+val transform_join : str list -> rng0 list -> str
+
+val ascii_space : z -> bool
+
+val space_len : str -> nat
+
+val space_len_rev : str -> nat
+
+val trim_with : (str -> nat) -> nat -> str -> str
+
+val trim_space : str -> str
+
+type item2 = z * str
+
+val min_int32 : z
+
+type params = { p_delim : str option; p_printsep : str; p_force_plus : 
+                bool; p_query : str; p_current : item2 list;
+                p_selected : item2 list; p_action : str; p_prompt : str;
+                p_fish : bool }
+
+type outp =
+| OText of str
+| OWords of (str * str) list
+
+val render0 : outp -> str
+
+val s_q : str
+
+val s_q_colon : str
+
+val s_braces : str
+
+val s_m_query : str
+
+val s_m_action : str
+
+val s_m_prompt : str
+
+val s_empty_quotes : str
+
+val quoted : params -> str -> str * str
+
+val repl_item : params -> flags -> item2 -> str * str
+
+val field_value : params -> flags -> rng0 list -> str -> str res
+
+val repl_fields : params -> flags -> rng0 list -> item2 -> (str * str) res
+
+val map_res : ('a1 -> 'a2 res) -> 'a1 list -> 'a2 list res
+
+val over_items :
+  params -> flags -> bool -> (item2 -> (str * str) res) -> str list ->
+  ((outp * str list) * str list) res
+
+val expand_ph :
+  params -> str -> str list -> ((outp * str list) * str list) res
+
+val expand_all :
+  params -> piece list -> str list -> (outp list * str list) res
+
+val replace_structured :
+  params -> str -> str list -> (outp list * str list) res
+
+val replace_placeholder : params -> str -> str list -> (str * str list) res
+
+val go_space : z -> bool
+
+val field_word : str -> str
+
+val fields_fuel : nat -> str -> str list
+
+val fields : str -> str list
+
+val split_on0 : z -> str -> str -> str list
+
+type executor = { x_shell : str; x_args : str list; x_fish : bool }
+
+val m_sh : str
+
+val m_dash_c : str
+
+val m_fish : str
+
+val new_executor : str -> str -> executor res
+
+val executor_quote : str -> str -> str -> str res
+
+val split_n2 : str -> str -> str list
+
+val re_start : z -> bool
+
+val re_char : z -> bool
+
+val re_identifier : str -> bool
+
+val m_tmux_pane : str
+
+val m_bash_func : str
+
+val m_pct2 : str
+
+val m_export_f : str
+
+val slice1 : str -> nat -> nat -> str res
+
+val proxy_entry : str -> (str list * bool) res
+
+val proxy_header : str list
+
+val proxy_exports_go : str list -> str list -> bool -> (str list * bool) res
+
+val proxy_exports : str list -> (str list * bool) res
+
+val proxy_script : str list -> str -> (str * bool) res
+
+val vopt_ws : str list option -> val0
+
+val dispatch_exec : z -> val0 -> val0 option
+
 val nL : z
 
 val split_nl_aux : str -> str -> str list
@@ -1832,23 +2185,23 @@ val take_while1 : (z -> bool) -> str -> str
 
 val split_on_aux : z -> str -> str -> str list
 
-val split_on0 : z -> str -> str list
+val split_on1 : z -> str -> str list
 
 val split_first : z -> str -> (str * str) option
 
 val digit : z -> bool
 
-val digits_val : str -> z -> z option
+val digits_val0 : str -> z -> z option
 
 val iNT_MAX : z
 
-val atoi : str -> z option
+val atoi0 : str -> z option
 
 val print_dec_aux : nat -> nat -> str -> str
 
 val print_dec : nat -> str
 
-val ascii_space : z -> bool
+val ascii_space0 : z -> bool
 
 val uspace_seqs : str list
 
@@ -1860,7 +2213,7 @@ val trim_left : str -> str
 
 val trim_right : str -> str
 
-val trim_space : str -> str
+val trim_space0 : str -> str
 
 val is_crlf_char : z -> bool
 
@@ -1995,7 +2348,7 @@ type pres =
 
 val process : pstate -> str -> pres
 
-val run1 : nat -> scanner -> pstate -> ((pstate, str) sum * bool) res
+val run2 : nat -> scanner -> pstate -> ((pstate, str) sum * bool) res
 
 val total_len : str list -> nat
 
@@ -2021,7 +2374,7 @@ type decision =
 
 val decide : str -> (pstate, str) sum -> decision
 
-val finish : str -> (str -> verdict) -> bool -> decision -> outcome0
+val finish0 : str -> (str -> verdict) -> bool -> decision -> outcome0
 
 val scan_eof : str list -> ((pstate, str) sum * bool) res
 
@@ -2063,6 +2416,25 @@ val v_outcome : outcome0 -> val0
 val v_start : start_res -> val0
 
 val dispatch_http : z -> val0 -> val0 option
+
+type cluster = str * nat
+
+val widths : cluster list -> nat
+
+val text : cluster list -> str
+
+val marker_width_ok : cluster list -> bool
+
+val e_MARKER_WIDTH : z
+
+val mm_loop :
+  cluster list -> z -> z -> nat -> cluster list list -> cluster list list res
+
+val marker_multi : cluster list -> cluster list list outcome res
+
+val dec_cluster : val0 -> cluster
+
+val dispatch_marker : z -> val0 -> val0 option
 
 type 'item result = 'item * z
 
@@ -2279,7 +2651,7 @@ type ('item, 'pat) label0 =
 | LPost of bool * ('item, 'pat) request
 | LInvalidate
 
-val finish0 :
+val finish1 :
   ('a1, 'a2) penv -> bool -> 'a1 result0 list list -> 'a1 result0 list
 
 val work :
@@ -2482,6 +2854,14 @@ val f_WITHSHELL : field
 
 val f_PREVIEW : field
 
+val f_TMUX : field
+
+val f_TMUXIDX : field
+
+val f_HEIGHTIDX : field
+
+val f_HAFTER : field
+
 val f_HMAXLOCAL : field
 
 val nOBSERVABLE : nat
@@ -2494,11 +2874,11 @@ val vnone : val0
 
 val vsome : val0 -> val0
 
-val is_digit1 : z -> bool
+val is_digit2 : z -> bool
 
-val digits_val0 : z -> str -> z option
+val digits_val1 : z -> str -> z option
 
-val atoi0 : str -> z option
+val atoi1 : str -> z option
 
 val sequence : 'a1 option list -> 'a1 list option
 
@@ -2531,6 +2911,22 @@ val crit_names : (str * z) list
 val scheme_criteria : str -> z list option
 
 val vints0 : z list -> val0
+
+val p_UP : z
+
+val p_DOWN : z
+
+val p_LEFT : z
+
+val p_RIGHT : z
+
+val p_CENTER : z
+
+val sz : z -> bool -> val0
+
+val mk_tmux : z -> val0 -> val0 -> bool -> val0
+
+val default_tmux : val0
 
 val e_UNKNOWN_OPTION : z
 
@@ -2581,15 +2977,15 @@ val find_dotdot : str -> str -> (str * str) option
 
 val nonzero : z option -> z option
 
-val new_range : z -> z -> z * z
+val new_range0 : z -> z -> z * z
 
-val parse_range : str -> (z * z) option
+val parse_range0 : str -> (z * z) option
 
 val nth_char : z -> bool
 
 val nth_expr : str -> bool
 
-val split_nth : str -> (z * z) list option
+val split_nth0 : str -> (z * z) list option
 
 val placeholder_here : str -> bool
 
@@ -2607,6 +3003,32 @@ val walker_loop : str list -> bool -> bool -> bool -> bool -> val0 option
 
 val parse_listen : str -> val0 option
 
+val is_cc : z -> bool
+
+val split_cc : str -> bool -> str -> str list
+
+val parse_size100 : str -> val0 option
+
+val s_border_native : str
+
+val s_center : str
+
+val s_top : str
+
+val s_up : str
+
+val s_bottom : str
+
+val s_down : str
+
+val s_left : str
+
+val s_right : str
+
+val cut_first : str -> str list -> str list option
+
+val parse_tmux : str -> val0 option
+
 val run_parser : pid -> str -> val0 list option
 
 type okind =
@@ -2620,6 +3042,7 @@ type okind =
 | KExpect
 | KNoExpect
 | KBind
+| KTmux
 
 val height_zero : val0
 
@@ -2635,7 +3058,7 @@ val break_eq : str -> str -> str * str option
 
 val split_arg : str -> str * str option
 
-val s_q : str
+val s_q0 : str
 
 val s_f0 : str
 
@@ -2661,12 +3084,17 @@ val take_dirs : env -> str list -> str list
 
 val history_set : cfg0 -> bool
 
+val stamp_req : pid -> nat -> cfg0 -> cfg0
+
+val tmux_ws : val0 -> nat -> (field * val0) list
+
 val exec :
-  env -> okind -> str option -> cfg0 -> str list -> (cfg0 * nat) outcome res
+  env -> nat -> okind -> str option -> cfg0 -> str list -> (cfg0 * nat)
+  outcome res
 
-val step0 : env -> cfg0 -> str -> str list -> (cfg0 * nat) outcome res
+val step1 : env -> nat -> cfg0 -> str -> str list -> (cfg0 * nat) outcome res
 
-val go : env -> cfg0 -> nat -> str list -> cfg0 outcome res
+val go : env -> cfg0 -> nat -> nat -> str list -> cfg0 outcome res
 
 val as_z : val0 -> z
 
@@ -2674,9 +3102,9 @@ val end_validate : cfg0 -> cfg0 outcome
 
 val layer_init : cfg0 -> cfg0
 
-val parse_layer : env -> cfg0 -> str list -> cfg0 outcome res
+val parse_layer : env -> nat -> cfg0 -> str list -> cfg0 outcome res
 
-val parse_layers : env -> cfg0 -> str list list -> cfg0 outcome res
+val parse_layers : env -> nat -> cfg0 -> str list list -> cfg0 outcome res
 
 val s_dotgit : str
 
@@ -2767,7 +3195,7 @@ val sel_toggle_all0 : ('a1 -> nat) -> nat -> 'a1 list -> 'a1 list -> 'a1 list
 
 val result_body : 'a1 option -> 'a1 list -> 'a1 list
 
-val is_blank0 : z -> bool
+val is_blank1 : z -> bool
 
 val is_space_ascii : z -> bool
 
@@ -2795,7 +3223,7 @@ val session_result :
   z -> bool -> str -> bool -> str -> (nat -> str) -> nat -> sel_event list ->
   nat option -> ending -> str * z
 
-val strip_prefix : str -> str -> str option
+val strip_prefix0 : str -> str -> str option
 
 val remove_first : str -> str list -> str list
 
@@ -2859,7 +3287,7 @@ val exitError : z
 
 val exitInterrupt : z
 
-type item2 = { it_index : nat; it_text : str; it_orig : str option }
+type item3 = { it_index : nat; it_text : str; it_orig : str option }
 
 type oopts = { o_ansi : bool; o_with_nth : bool; o_print0 : bool;
                o_print_query : bool; o_sort : bool; o_tac : bool;
@@ -2880,14 +3308,14 @@ type nth_fn =
 | NthRanges of range list
 | NthTemplate of nth_part list
 
-val new_range0 : z -> z -> range
+val new_range1 : z -> z -> range
 
-type awk_state =
-| AwkNil
-| AwkBlack
-| AwkWhite
+type awk_state0 =
+| AwkNil0
+| AwkBlack0
+| AwkWhite0
 
-val awk_loop : awk_state -> str -> str list -> str -> str list
+val awk_loop : awk_state0 -> str -> str list -> str -> str list
 
 val awk_tokenizer : str -> str list
 
@@ -2895,21 +3323,21 @@ val is_prefix : str -> str -> bool
 
 val split_after_go : str -> nat -> str -> str -> str list
 
-val split_after : str -> str -> str list
+val split_after0 : str -> str -> str list
 
-val tokenize : delim -> str -> str list
+val tokenize0 : delim -> str -> str list
 
 val collect_range : nat -> z -> str list -> str list res
 
 val transform_one : str list -> range -> str res
 
-val map_res : ('a1 -> 'a2 res) -> 'a1 list -> 'a2 list res
+val map_res0 : ('a1 -> 'a2 res) -> 'a1 list -> 'a2 list res
 
 val join_transform : str list -> range list -> str res
 
 val strip_suffix_rev : str -> str -> str option
 
-val trim_suffix : str -> str -> str
+val trim_suffix0 : str -> str -> str
 
 val is_space_byte : z -> bool
 
@@ -2919,7 +3347,7 @@ val strip_last_delimiter : delim -> str -> str
 
 val itoa_fuel : nat -> z -> str -> str
 
-val itoa : z -> str
+val itoa0 : z -> str
 
 val template_loop : delim -> str list -> z -> nth_part list -> str -> str res
 
@@ -2928,55 +3356,55 @@ val apply_nth : delim -> nth_fn -> str list -> z -> str res
 val ansi_processor : (str -> str) -> oopts -> str -> str
 
 val trans :
-  (str -> str) -> (nat -> str -> str) -> oopts -> nat -> str -> item2
+  (str -> str) -> (nat -> str -> str) -> oopts -> nat -> str -> item3
 
-val as_string : (str -> str) -> (str -> str) -> bool -> item2 -> str
+val as_string : (str -> str) -> (str -> str) -> bool -> item3 -> str
 
 val printer : bool -> str -> str -> str
 
 val stream_loop :
-  (str -> str) -> (str -> str) -> (nat -> str -> str) -> (item2 -> bool) ->
+  (str -> str) -> (str -> str) -> (nat -> str -> str) -> (item3 -> bool) ->
   oopts -> nat -> str list -> str -> bool -> str * bool
 
 val build_items :
-  (str -> str) -> (nat -> str -> str) -> oopts -> nat -> str list -> item2
+  (str -> str) -> (nat -> str -> str) -> oopts -> nat -> str list -> item3
   list
 
-val scan :
-  (item2 -> bool) -> (item2 list -> item2 list) -> bool -> oopts -> item2
-  list -> item2 list
+val scan0 :
+  (item3 -> bool) -> (item3 list -> item3 list) -> bool -> oopts -> item3
+  list -> item3 list
 
 val print_loop :
-  (str -> str) -> (str -> str) -> oopts -> item2 list -> str -> bool ->
+  (str -> str) -> (str -> str) -> oopts -> item3 list -> str -> bool ->
   str * bool
 
 val filter_mode :
-  (str -> str) -> (str -> str) -> (nat -> str -> str) -> (item2 -> bool) ->
-  (item2 list -> item2 list) -> bool -> oopts -> str -> str list -> str * z
+  (str -> str) -> (str -> str) -> (nat -> str -> str) -> (item3 -> bool) ->
+  (item3 list -> item3 list) -> bool -> oopts -> str -> str list -> str * z
 
 type topts = { to_ansi : bool; to_print0 : bool; to_print_query : bool;
                to_expect : bool; to_multi : nat;
                to_accept_nth : nth_fn option; to_delim : delim }
 
-type smap = (nat * (nat * item2)) list
+type smap = (nat * (nat * item3)) list
 
 type sstate1 = smap * nat
 
-val m_find : nat -> smap -> (nat * item2) option
+val m_find : nat -> smap -> (nat * item3) option
 
 val m_delete : nat -> smap -> smap
 
-val select_item0 : nat -> item2 -> sstate1 -> sstate1 * bool
+val select_item0 : nat -> item3 -> sstate1 -> sstate1 * bool
 
-val deselect_item0 : item2 -> sstate1 -> sstate1
+val deselect_item0 : item3 -> sstate1 -> sstate1
 
-val toggle_item0 : nat -> item2 -> sstate1 -> sstate1 * bool
+val toggle_item0 : nat -> item3 -> sstate1 -> sstate1 * bool
 
-val insert_by_time : (nat * item2) -> (nat * item2) list -> (nat * item2) list
+val insert_by_time : (nat * item3) -> (nat * item3) list -> (nat * item3) list
 
-val sort_selected : smap -> item2 list
+val sort_selected : smap -> item3 list
 
-type term = { t_merger0 : item2 list; t_cy : z; t_sel : sstate1;
+type term = { t_merger0 : item3 list; t_cy : z; t_sel : sstate1;
               t_queue : str list; t_input0 : str; t_pressed : str;
               t_reading : bool; t_count0 : nat }
 
@@ -2984,7 +3412,7 @@ val with_sel0 : term -> sstate1 -> term
 
 val with_cy : term -> z -> term
 
-val current_item0 : term -> item2 option res
+val current_item0 : term -> item3 option res
 
 val constrain0 : z -> z -> z -> z
 
@@ -2993,12 +3421,12 @@ val vset0 : term -> z -> term
 val vmove0 : term -> z -> term
 
 val accept_nth :
-  (str -> str) -> (str -> str) -> topts -> nth_fn -> item2 -> str res
+  (str -> str) -> (str -> str) -> topts -> nth_fn -> item3 -> str res
 
-val out_transform : (str -> str) -> (str -> str) -> topts -> item2 -> str res
+val out_transform : (str -> str) -> (str -> str) -> topts -> item3 -> str res
 
 val print_items :
-  (str -> str) -> (str -> str) -> topts -> item2 list -> str -> str res
+  (str -> str) -> (str -> str) -> topts -> item3 list -> str -> str res
 
 val output0 :
   (str -> str) -> (str -> str) -> topts -> term -> (str * bool) res
@@ -3019,7 +3447,7 @@ type action0 =
 | ALast0
 | APos0 of z
 | APrint of str
-| AUpdate0 of str * item2 list * z
+| AUpdate0 of str * item3 list * z
 | AAccept
 | AAcceptNonEmpty
 | AAcceptOrPrintQuery
@@ -3032,14 +3460,14 @@ type outcome1 =
 | Running of term
 | Exited of str * z
 
-val select_all_loop0 : nat -> item2 list -> sstate1 -> sstate1
+val select_all_loop0 : nat -> item3 list -> sstate1 -> sstate1
 
-val deselect_all_loop0 : item2 list -> sstate1 -> sstate1
+val deselect_all_loop0 : item3 list -> sstate1 -> sstate1
 
 val toggle_all_1 :
-  nat -> item2 list -> sstate1 -> nat list -> sstate1 * nat list
+  nat -> item3 list -> sstate1 -> nat list -> sstate1 * nat list
 
-val toggle_all_2 : nat -> nat -> item2 list -> sstate1 -> nat list -> sstate1
+val toggle_all_2 : nat -> nat -> item3 list -> sstate1 -> nat list -> sstate1
 
 val toggle_current0 : topts -> term -> (term * bool) res
 
@@ -3055,12 +3483,12 @@ val run_actions :
   res
 
 val select1_exit0 :
-  (str -> str) -> (str -> str) -> topts -> bool -> bool -> str -> item2 list
+  (str -> str) -> (str -> str) -> topts -> bool -> bool -> str -> item3 list
   -> (str * z) option res
 
 val interactive :
   (str -> str) -> (str -> str) -> bool -> topts -> bool -> bool -> str ->
-  item2 list -> nat -> action0 list -> outcome1 res
+  item3 list -> nat -> action0 list -> outcome1 res
 
 val tbl_lookup : (str * str) list -> str -> str
 
@@ -3068,7 +3496,7 @@ val as_tbl : val0 -> (str * str) list
 
 val as_bits : val0 -> bool list
 
-val match_by_index : bool list -> item2 -> bool
+val match_by_index : bool list -> item3 -> bool
 
 val as_oopts : val0 -> oopts
 
@@ -3086,9 +3514,9 @@ val as_delim : val0 -> delim
 
 val as_topts : val0 -> topts
 
-val pick_items : item2 list -> nat list -> item2 list
+val pick_items : item3 list -> nat list -> item3 list
 
-val as_action : item2 list -> val0 -> action0
+val as_action : item3 list -> val0 -> action0
 
 val d_interactive : val0 -> val0
 
@@ -3213,9 +3641,9 @@ type pattern = { pat_opts : popts; pat_cs : bool; pat_nm : bool;
 
 val qopts_of : popts -> qopts
 
-val has_prefix1 : str -> z -> bool
+val has_prefix2 : str -> z -> bool
 
-val has_suffix1 : str -> z -> bool
+val has_suffix2 : str -> z -> bool
 
 val slice_from1 : str -> str res
 
@@ -3291,48 +3719,6 @@ val v_mitem : mitem option res -> val0
 
 val dispatch_pattern : z -> val0 -> val0 option
 
-val c_sq : z
-
-val c_bs : z
-
-val c_sp : z
-
-val c_nl : z
-
-val is_meta : z -> bool
-
-type mode =
-| Out
-| InWord
-| InSQ
-| Esc
-
-type lst = { l_mode : mode; l_cur : str; l_acc : str list }
-
-val step1 : lst -> z -> lst option
-
-val run2 : lst -> str -> lst option
-
-val finish1 : lst -> str list option
-
-val l_init : lst
-
-val sh_words : str -> str list option
-
-type seg =
-| SLit of str
-| SWords of str list
-
-val feed_word : lst -> str -> lst option
-
-val feed_words : lst -> str list -> lst option
-
-val feed_segs : lst -> seg list -> lst option
-
-val template_words : seg list -> str list option
-
-val join_sp : str list -> str
-
 type sitem = z * str
 
 val current_items : sitem option -> sitem list
@@ -3343,207 +3729,6 @@ val join_with : str -> str list -> str
 
 val file_text : str -> str list -> str
 
-val esc_sh : str -> str
-
-val esc_fish : str -> str
-
-val quote_entry : bool -> str -> str
-
-val escape_single_quote : str -> str
-
-val tmux_suffix : str
-
-val tmux_args_go : str -> str list -> str
-
-val tmux_arg_str : str -> str list -> str
-
-val export_word : str
-
-val export_line : str -> str -> str
-
-val strip_prefix0 : str -> str -> str option
-
-val has_prefix2 : str -> str -> bool
-
-val has_suffix2 : str -> str -> bool
-
-val trim_suffix0 : str -> str -> str
-
-val span : (z -> bool) -> str -> nat * str
-
-val join_str : str -> str list -> str
-
-val mid : nat -> str -> str res
-
-val c_lb : z
-
-val c_rb : z
-
-val in_flags : z -> bool
-
-val in_range : z -> bool
-
-val closes : str -> bool
-
-val m_a1 : str -> nat option
-
-val m_a2 : str -> nat option
-
-val s_fzf_query : str
-
-val s_fzf_action : str
-
-val s_fzf_prompt : str
-
-val m_a3 : str -> nat option
-
-val opt_char : z -> str -> nat * str
-
-val m_a4 : str -> nat option
-
-val match_at0 : str -> nat option
-
-type piece =
-| PLit of str
-| PEsc of str
-| PPh of str
-
-val flush_lit : str -> piece list -> piece list
-
-val scan0 : str -> nat -> str -> piece list
-
-type flags = { f_plus : bool; f_space : bool; f_number : bool; f_file : 
-               bool; f_raw : bool }
-
-val no_flags : flags
-
-val pp_go : str -> flags -> str -> flags * str
-
-val s_fzf_colon : str
-
-val parse_placeholder : str -> (flags * str) res
-
-val is_digit2 : z -> bool
-
-val digits_val1 : z -> str -> z option
-
-val int_min : z
-
-val int_max : z
-
-val atoi1 : str -> z option
-
-val itoa_pos : nat -> z -> str -> str
-
-val bits : z -> nat
-
-val itoa0 : z -> str
-
-val s_dd : str
-
-val split_dd : str -> str -> str list
-
-type rng0 = z * z
-
-val new_range1 : z -> z -> rng0
-
-val atoi_nz : str -> z option
-
-val parse_range0 : str -> rng0 option
-
-val split_comma : str -> str -> str list
-
-val parse_ranges : str list -> rng0 list option
-
-val split_nth0 : str -> rng0 list option
-
-type awk_state0 =
-| AwkNil0
-| AwkBlack0
-| AwkWhite0
-
-val awk_white : z -> bool
-
-val awk_go : str -> awk_state0 -> str -> str list -> str list
-
-val awk_tokens : str -> str list
-
-val split_after0 : nat -> str -> str -> str -> str list res
-
-val tokenize0 : str option -> str -> str list res
-
-val sel_go : str list -> z -> z -> z -> str
-
-val sel : str list -> z -> z -> str
-
-val transform1 : str list -> rng0 -> str
-
-val transform_join : str list -> rng0 list -> str
-
-val ascii_space0 : z -> bool
-
-val space_len : str -> nat
-
-val space_len_rev : str -> nat
-
-val trim_with : (str -> nat) -> nat -> str -> str
-
-val trim_space0 : str -> str
-
-type item3 = z * str
-
-val min_int32 : z
-
-type params = { p_delim : str option; p_printsep : str; p_force_plus : 
-                bool; p_query : str; p_current : item3 list;
-                p_selected : item3 list; p_action : str; p_prompt : str;
-                p_fish : bool }
-
-type outp =
-| OText of str
-| OWords of (str * str) list
-
-val render0 : outp -> str
-
-val s_q0 : str
-
-val s_q_colon : str
-
-val s_braces : str
-
-val s_m_query : str
-
-val s_m_action : str
-
-val s_m_prompt : str
-
-val s_empty_quotes : str
-
-val quoted : params -> str -> str * str
-
-val repl_item : params -> flags -> item3 -> str * str
-
-val field_value : params -> flags -> rng0 list -> str -> str res
-
-val repl_fields : params -> flags -> rng0 list -> item3 -> (str * str) res
-
-val map_res0 : ('a1 -> 'a2 res) -> 'a1 list -> 'a2 list res
-
-val over_items :
-  params -> flags -> bool -> (item3 -> (str * str) res) -> str list ->
-  ((outp * str list) * str list) res
-
-val expand_ph :
-  params -> str -> str list -> ((outp * str list) * str list) res
-
-val expand_all :
-  params -> piece list -> str list -> (outp list * str list) res
-
-val replace_structured :
-  params -> str -> str list -> (outp list * str list) res
-
-val replace_placeholder : params -> str -> str list -> (str * str list) res
-
 val force_update_of : str -> bool
 
 val plus_of : str -> bool
@@ -3552,25 +3737,25 @@ val preview_flags : piece list -> (bool * bool) * bool
 
 val has_preview_flags : str -> (bool * bool) * bool
 
-val min_item : item3
+val min_item : item2
 
-val opt_items : item3 option -> item3 list
+val opt_items : item2 option -> item2 list
 
 val build_plus_list :
-  str -> bool -> item3 option -> item3 list -> bool * (item3 list * item3
+  str -> bool -> item2 option -> item2 list -> bool * (item2 list * item2
   list)
 
-val with_items : params -> item3 list -> item3 list -> params
+val with_items : params -> item2 list -> item2 list -> params
 
 val terminal_expand :
-  params -> item3 option -> item3 list -> str -> str list ->
+  params -> item2 option -> item2 list -> str -> str list ->
   (bool * (str * str list)) res
 
 val own_files : params -> piece -> str list res
 
 val vopt_words : str list option -> val0
 
-val as_item1 : val0 -> item3
+val as_item1 : val0 -> item2
 
 val as_optstr : val0 -> str option
 
@@ -3582,9 +3767,9 @@ val v_outp : outp -> val0
 
 val v_piece : piece -> val0
 
-val v_item : item3 -> val0
+val v_item : item2 -> val0
 
-val as_optitem : val0 -> item3 option
+val as_optitem : val0 -> item2 option
 
 val dispatch_placeholder : z -> val0 -> val0 option
 
@@ -4110,7 +4295,7 @@ val filter_listing : bool -> bool -> nat -> nat -> str -> item5 list
 
 val session_views : bool -> nat -> nat -> str list -> item5 list list
 
-type slice1 = { sl_buf : nat; sl_off : nat; sl_len : nat }
+type slice2 = { sl_buf : nat; sl_off : nat; sl_len : nat }
 
 type mem0 = str list
 
@@ -4122,7 +4307,7 @@ val overwrite : 'a1 list -> 'a1 list -> 'a1 list res
 
 val write_off : nat -> 'a1 list -> 'a1 list -> 'a1 list res
 
-val deref : mem0 -> slice1 -> str res
+val deref : mem0 -> slice2 -> str res
 
 val write_at : mem0 -> nat -> nat -> str -> mem0 res
 
@@ -4132,9 +4317,9 @@ val cR : z
 
 val index_byte1 : str -> z -> nat option
 
-type fstate = { f_mem : mem0; f_left : str; f_items : slice1 list }
+type fstate = { f_mem : mem0; f_left : str; f_items : slice2 list }
 
-val emit0 : fstate -> slice1 -> fstate res
+val emit0 : fstate -> slice2 -> fstate res
 
 val scan_buf : nat -> z -> bool -> nat -> nat -> str -> fstate -> fstate res
 
@@ -4143,13 +4328,13 @@ val read_retry : nat -> nat -> nat -> str -> nat list -> str * nat list
 val read_tries : nat
 
 val feed_loop :
-  nat -> nat -> nat -> z -> bool -> str -> nat list -> slice1 -> fstate ->
+  nat -> nat -> nat -> z -> bool -> str -> nat list -> slice2 -> fstate ->
   fstate res
 
 val feed :
-  nat -> nat -> z -> bool -> str -> nat list -> (mem0 * slice1 list) res
+  nat -> nat -> z -> bool -> str -> nat list -> (mem0 * slice2 list) res
 
-val deref_all0 : mem0 -> slice1 list -> str list res
+val deref_all0 : mem0 -> slice2 list -> str list res
 
 val feed_records : nat -> nat -> z -> bool -> str -> nat list -> str list res
 
@@ -4537,6 +4722,52 @@ val physical : cfg1 -> row list -> row list
 
 val render1 : cfg1 -> view -> row list
 
+type hdr = { h_visible : bool; h_header : str list; h_hlines : str list }
+
+val with_hdr : cfg1 -> hdr -> cfg1
+
+type dterm = { d_t : term1; d_other : bool list; d_hdr : hdr }
+
+val logical : cfg1 -> row list -> row list
+
+val relabel : cfg1 -> cfg1 -> row list -> row list
+
+val il_otherv : iline
+
+val print_item_d :
+  nat -> nat -> nat -> nat -> nat list -> nat -> (nat * str) ->
+  ((iline * bool) * row) -> (iline * bool) * row
+
+val draw_rows_d :
+  nat -> nat -> nat -> nat -> nat list -> nat -> (nat * str) list ->
+  ((iline * bool) * row) list -> ((iline * bool) * row) list
+
+val dset : dterm -> row list -> iline list -> bool list -> dterm
+
+val lift : (term1 -> term1) -> dterm -> dterm
+
+val print_list_at_d : cfg1 -> dterm -> dterm
+
+val print_list_d : cfg1 -> dterm -> dterm
+
+val mark_from : 'a1 -> nat -> nat -> 'a1 list -> 'a1 list
+
+val print_header_d : cfg1 -> dterm -> dterm
+
+val print_all_d : cfg1 -> dterm -> dterm
+
+val full_redraw_d : cfg1 -> dterm -> dterm
+
+val resize_needed : cfg1 -> bool
+
+val handle_d : cfg1 -> reqs -> dterm -> dterm
+
+type dupd = { du_hdr : hdr; du_upd : upd }
+
+val step_d : cfg1 -> dterm -> dupd -> dterm
+
+val start_d : cfg1 -> hdr -> view -> dterm
+
 val as_layout : val0 -> layout
 
 val as_info : val0 -> info_style
@@ -4560,6 +4791,12 @@ val vrows : row list -> val0
 val as_rows : val0 -> row list
 
 val d_run : cfg1 -> term1 -> upd list -> val0 list
+
+val as_hdr : val0 -> hdr
+
+val as_dupd : val0 -> dupd
+
+val d_run_d : cfg1 -> hdr -> dterm -> dupd list -> val0 list
 
 val dispatch_render : z -> val0 -> val0 option
 
@@ -4613,6 +4850,16 @@ val closed : z list -> bool
 val view_in_boundsb : z -> z -> z -> z -> bool
 
 type ledger = nat list
+
+type pfile =
+| PFOut
+| PFIn
+| PFScript
+| PFBecome
+
+val pfile_code : pfile -> z
+
+val proxy_clean : pfile list -> bool
 
 val uint_bytes : uint -> z list
 
@@ -4737,6 +4984,21 @@ val t_step : tstate -> tev -> tstate
 
 val t_run : tstate -> tev list -> tstate
 
+type penv0 = { pe_stdin_tty : bool; pe_out_ok : bool; pe_in_ok : bool;
+               pe_builder_ok : bool; pe_child : z; pe_exiterr : bool;
+               pe_inner_become : bool; pe_ttyin_ok : bool }
+
+type pres0 = { pr_live : pfile list; pr_left : pfile list; pr_code : 
+               z; pr_exec : bool }
+
+val pf_eqb : pfile -> pfile -> bool
+
+val p_remove : pfile -> pfile list -> pfile list
+
+val p_return : pfile list -> pfile list -> pfile list
+
+val run_proxy : penv0 -> pres0
+
 val vmodes : modes -> val0
 
 val vev : mev -> val0
@@ -4755,53 +5017,53 @@ type tcell = z list
 
 type tmem = tcell list
 
-type slice2 = { sl_cell : nat; sl_off0 : nat; sl_len0 : nat }
+type slice3 = { sl_cell : nat; sl_off0 : nat; sl_len0 : nat }
 
 val mem_alloc : tmem -> tcell -> tmem * nat
 
-val sl_cap : tmem -> slice2 -> nat res
+val sl_cap : tmem -> slice3 -> nat res
 
-val sl_read : tmem -> slice2 -> z list res
+val sl_read : tmem -> slice3 -> z list res
 
-val sl_sub : tmem -> slice2 -> nat -> nat -> slice2 res
+val sl_sub : tmem -> slice3 -> nat -> nat -> slice3 res
 
 val cell_write : tcell -> nat -> z list -> tcell
 
-val sl_append : tmem -> slice2 -> z list -> (tmem * slice2) res
+val sl_append : tmem -> slice3 -> z list -> (tmem * slice3) res
 
-val sl_set : tmem -> slice2 -> nat -> z -> tmem res
+val sl_set : tmem -> slice3 -> nat -> z -> tmem res
 
-val copy_runes : tmem -> slice2 -> (tmem * slice2) res
+val copy_runes : tmem -> slice3 -> (tmem * slice3) res
 
-val nil_slice : tmem -> tmem * slice2
+val nil_slice : tmem -> tmem * slice3
 
-type chars = { ch_bytes : bool; ch_sl : slice2 }
+type chars = { ch_bytes : bool; ch_sl : slice3 }
 
 val chars_text : tmem -> chars -> z list res
 
-val chars_to_runes : tmem -> chars -> (tmem * slice2) res
+val chars_to_runes : tmem -> chars -> (tmem * slice3) res
 
-val owned_text : bool -> tmem -> chars -> (tmem * slice2) res
+val owned_text : bool -> tmem -> chars -> (tmem * slice3) res
 
 val split_lines : z list -> nat -> nat -> nat -> z -> (nat * nat) list * nat
 
-val sub_all : tmem -> slice2 -> (nat * nat) list -> slice2 list res
+val sub_all : tmem -> slice3 -> (nat * nat) list -> slice3 list res
 
 val wrap_line0 :
-  (z list -> z -> z -> nat option) -> nat -> tmem -> slice2 -> bool -> bool
-  -> slice2 list -> z -> z -> z -> z -> ((tmem * slice2 list) * bool) res
+  (z list -> z -> z -> nat option) -> nat -> tmem -> slice3 -> bool -> bool
+  -> slice3 list -> z -> z -> z -> z -> ((tmem * slice3 list) * bool) res
 
 val wrap_all :
-  (z list -> z -> z -> nat option) -> tmem -> slice2 list -> slice2 list -> z
-  -> z -> z -> z -> ((tmem * slice2 list) * bool) res
+  (z list -> z -> z -> nat option) -> tmem -> slice3 list -> slice3 list -> z
+  -> z -> z -> z -> ((tmem * slice3 list) * bool) res
 
 val chars_lines :
   (z list -> z -> z -> nat option) -> bool -> tmem -> chars -> bool -> z -> z
-  -> z -> z -> ((tmem * slice2 list) * bool) res
+  -> z -> z -> ((tmem * slice3 list) * bool) res
 
 val item_lines0 :
   (z list -> z -> z -> nat option) -> bool -> tmem -> chars -> bool -> bool
-  -> z -> z -> z -> z -> ((tmem * slice2 list) * bool) res
+  -> z -> z -> z -> z -> ((tmem * slice3 list) * bool) res
 
 type pop =
 | PSub of nat * nat * nat
@@ -4809,11 +5071,11 @@ type pop =
 | PAppS of nat * nat
 | PSet of nat * nat * z
 
-val reg : slice2 list -> nat -> slice2 res
+val reg : slice3 list -> nat -> slice3 res
 
-val pstep : tmem -> slice2 list -> pop -> (tmem * slice2 list) res
+val pstep : tmem -> slice3 list -> pop -> (tmem * slice3 list) res
 
-val prun : tmem -> slice2 list -> pop list -> (tmem * slice2 list) res
+val prun : tmem -> slice3 list -> pop list -> (tmem * slice3 list) res
 
 val wide : z -> bool
 
@@ -4831,9 +5093,9 @@ val substr_filter : str -> z -> str list -> z list
 
 val as_pop : val0 -> pop
 
-val v_read : tmem -> slice2 -> val0
+val v_read : tmem -> slice3 -> val0
 
-val v_line : tmem -> slice2 -> val0
+val v_line : tmem -> slice3 -> val0
 
 val d_textmem : val0 -> val0
 
@@ -4841,7 +5103,7 @@ val as_rep : val0 -> z * str
 
 val dispatch_textstore : z -> val0 -> val0 option
 
-val is_blank1 : z -> bool
+val is_blank2 : z -> bool
 
 val non_blank : z -> bool
 
@@ -4946,7 +5208,7 @@ type delimiter =
 
 val is_awk : delimiter -> bool
 
-val slice3 : str -> nat -> nat -> str res
+val slice4 : str -> nat -> nat -> str res
 
 val with_prefix_lengths : str list -> z -> token list
 
@@ -5115,7 +5377,7 @@ val with_sep : str -> str
 
 val after_last_slash_aux : str -> str -> str
 
-val base_name : str -> str
+val base_name0 : str -> str
 
 val hidden_name : str -> bool
 
